@@ -196,7 +196,7 @@ func countCells(h History) {
 	defer cellMu.Unlock()
 	seen := map[string]bool{}
 	n := 0
-	for _, op := range h.Ops {
+	for _, op := range h.flat() {
 		if op.K != "ladd" || op.L == nil || seen[op.L.Name] {
 			continue
 		}
